@@ -1,3 +1,167 @@
-From CMI Require Import Cxx.C18_Defs Cxx.C18_Proofs.
-Theorem C18_tmp : True. Proof. exact I. Qed.
-Print Assumptions C18_tmp.
+(* C18  Atomic data and sampled frequencies are physical.
+   Only statements, each closed by [exact] of a lemma of Cxx/C18_Proofs*.v.
+
+   [Rops] is the real-number instance of the model of Cxx/C18_Defs.v (the binary64 instance of the
+   same definitions is what is run against the C++ classes); tables are those of the regenerated
+   Cxx/C18_Gen.v; [ion] ranges over the 14 ions tracked by the default build. *)
+From Coq Require Import Reals ZArith List Bool.
+From CMI Require Import Cxx.C18_Proofs.
+Import ListNotations.
+Local Open Scope R_scope.
+
+(* ---- recombination ---------------------------------------------------------------------- *)
+(* every rate the balance uses is strictly positive for 10 K <= T <= 1e5 K (Verner part from the
+   sign of the regenerated coefficients; ions whose dielectronic polynomial has negative
+   coefficients by interval arithmetic on the regenerated numbers) *)
+Theorem C18_rec_rate_positive_to_1e5 : forall i T, 10 <= T <= 100000 -> 0 < rec_rate Rops i T.
+Proof. exact rec_rate_positive_lemma. Qed.
+Print Assumptions C18_rec_rate_positive_to_1e5.
+
+(* ... and non-negative at every temperature (the code clips at zero) *)
+Theorem C18_rec_rate_nonneg : forall i T, 0 <= rec_rate Rops i T.
+Proof. exact rec_rate_nonneg_lemma. Qed.
+Print Assumptions C18_rec_rate_nonneg.
+
+(* the clip is not dead code: the unclipped C2+ expression is negative at 1e9 K *)
+Theorem C18_rec_clip_needed : rec_before_scaling Rops C_p2 (Vof C_p2 1000000000) 1000000000 < 0.
+Proof. exact rec_clip_needed_C_p2. Qed.
+Print Assumptions C18_rec_clip_needed.
+
+(* hydrogen and helium: strictly decreasing in T, for all 0 < T < T' *)
+Theorem C18_rec_H_He_decreasing : forall i T T', i = H_n \/ i = He_n -> 0 < T -> T < T' ->
+  rec_rate Rops i T' < rec_rate Rops i T.
+Proof. exact rec_H_He_decreasing_lemma. Qed.
+Print Assumptions C18_rec_H_He_decreasing.
+
+(* ---- cross sections ------------------------------------------------------------------------ *)
+(* defined and non-negative for every tracked ion and every photon frequency *)
+Theorem C18_xsec_nonneg : forall i e, exists v, xsec_ion Rops i e = Some v /\ 0 <= v.
+Proof. exact xsec_nonneg_lemma. Qed.
+Print Assumptions C18_xsec_nonneg.
+
+(* zero below the ion's threshold (E_th of its outermost summed shell, in Hz as the code converts it) *)
+Theorem C18_xsec_zero_below_threshold : forall i e, e < ion_threshold_Hz i -> xsec_ion Rops i e = Some 0.
+Proof. exact xsec_zero_below_threshold_lemma. Qed.
+Print Assumptions C18_xsec_zero_below_threshold.
+
+(* each shell contributes nothing below its own threshold, for any resolved (nz, ne, is) *)
+Theorem C18_xsec_shell_zero_below : forall s e, e < dec2R (ra_Eth (ss_A s)) * eV_to_Hz Rops -> xsec_sel Rops s e = Some 0.
+Proof. exact xsec_shell_zero_below. Qed.
+Print Assumptions C18_xsec_shell_zero_below.
+
+(* each tracked shell evaluates 0 or, literally, the Verner & Yakovlev 1995 / Verner et al. 1996
+   expression on the raw numbers of its row of the shipped table (E in eV) *)
+Theorem C18_xsec_is_published_formula : forall i s E, In (Some s) (ion_sels i) ->
+  exists b, ss_B s = Some b /\
+  (xsec_sel Rops s (E * eV_to_Hz Rops) = Some 0 \/
+   xsec_sel Rops s (E * eV_to_Hz Rops) =
+     Some (pub95 E (dec2R (ra_E0 (ss_A s))) (dec2R (ra_s0 (ss_A s))) (dec2R (ra_ya (ss_A s))) (dec2R (ra_P (ss_A s))) (dec2R (ra_yw (ss_A s))) (ra_l (ss_A s))) \/
+   xsec_sel Rops s (E * eV_to_Hz Rops) =
+     Some (pub96 E (dec2R (rb_E0 b)) (dec2R (rb_s0 b)) (dec2R (rb_ya b)) (dec2R (rb_P b)) (dec2R (rb_yw b)) (dec2R (rb_y0 b)) (dec2R (rb_y1 b)))).
+Proof. exact xsec_is_published_lemma. Qed.
+Print Assumptions C18_xsec_is_published_formula.
+
+(* std::pow is only ever called with positive bases (so that Rpower is the C function) *)
+Theorem C18_xsec_pow_bases_positive :
+  (forall r e, rowA_ok r = true -> pa_Eth (prep_A Rops r) <= e ->
+     0 < fitA_y Rops (prep_A Rops r) e /\ 0 < fitA_b2 Rops (prep_A Rops r) e) /\
+  (forall b e, rowB_ok b = true -> 0 < e ->
+     0 < fitB_y Rops (prep_B Rops b) e /\ 0 < fitB_b2 Rops (prep_B Rops b) e).
+Proof. exact (conj fitA_bases_pos fitB_bases_pos). Qed.
+Print Assumptions C18_xsec_pow_bases_positive.
+
+(* the table conditions used above hold on the regenerated tables, for all 14 ions *)
+Theorem C18_tables_satisfy_conditions : forallb ion_ok all_ions = true /\ forallb thr_ok all_ions = true /\ metal_rr_ok = true.
+Proof. exact (conj all_ions_ok (conj all_thr_ok metal_rr_ok_true)). Qed.
+Print Assumptions C18_tables_satisfy_conditions.
+
+(* the integer sign/order checks on exact decimals are sound *)
+Theorem C18_sign_checkers_sound :
+  (forall d, dpos d = true -> 0 < dec2R d) /\ (forall d, dnonneg d = true -> 0 <= dec2R d) /\
+  (forall d, dnonpos d = true -> dec2R d <= 0) /\ (forall a b, dlt a b = true -> dec2R a < dec2R b) /\
+  (forall a b, dle a b = true -> dec2R a <= dec2R b).
+Proof. exact (conj dpos_sound (conj dnonneg_sound (conj dnonpos_sound (conj dlt_sound dle_sound)))). Qed.
+Print Assumptions C18_sign_checkers_sound.
+
+(* ---- charge transfer ------------------------------------------------------------------------- *)
+(* every rate function, every ion, every temperature argument: non-negative whenever defined *)
+Theorem C18_ct_rate_nonneg : forall kd i t v, ct_rate Rops kd i t = Some v -> 0 <= v.
+Proof. exact ct_rate_nonneg_lemma. Qed.
+Print Assumptions C18_ct_rate_nonneg.
+
+(* the 19 reactions of the ionization balance are defined (no abort) and non-negative *)
+Theorem C18_ct_balance_nonneg : forall kd i t, In (kd, i) balance_reactions -> exists v, ct_rate Rops kd i t = Some v /\ 0 <= v.
+Proof. exact ct_balance_lemma. Qed.
+Print Assumptions C18_ct_balance_nonneg.
+
+(* ---- Utilities::locate ---------------------------------------------------------------------- *)
+(* for ANY array of length >= 2 and ANY x the loop ends and the result is in [0, length-2] *)
+Theorem C18_locate_total : forall gt n, (2 <= n)%nat -> exists j, locate gt n = Some j /\ (S j < n)%nat.
+Proof. exact locate_total. Qed.
+Print Assumptions C18_locate_total.
+
+(* if x is not above the last element, the index brackets x:  (j = 0 or xarr[j] < x) and x <= xarr[j+1];
+   gt j stands for  x > xarr[j] *)
+Theorem C18_locate_spec : forall gt n, (2 <= n)%nat -> gt (n - 1)%nat = false ->
+  exists j, locate gt n = Some j /\ (S j < n)%nat /\ (j = 0%nat \/ gt j = true) /\ gt (S j) = false.
+Proof. exact locate_spec. Qed.
+Print Assumptions C18_locate_spec.
+
+(* on a sorted array the bracketing index is unique: it is THE last element smaller than x *)
+Theorem C18_locate_unique : forall gt, (forall a b, (a <= b)%nat -> gt b = true -> gt a = true) ->
+  forall j j', gt j = true -> gt (S j) = false -> gt j' = true -> gt (S j') = false -> j = j'.
+Proof. exact bracket_unique. Qed.
+Print Assumptions C18_locate_unique.
+
+(* ---- samplers --------------------------------------------------------------------------------- *)
+(* linear inverse CDF (He two-photon continuum): the frequency lies between the bracketing nodes,
+   hence inside the table's frequency range *)
+Theorem C18_sample_linear_in_range : forall freq cdf x, length freq = length cdf -> (2 <= length cdf)%nat ->
+  Rsorted freq -> nth 0 cdf 0 < x <= nth (length cdf - 1) cdf 0 ->
+  exists j v, sample_linear Rops freq cdf x = Some v /\ (S j < length cdf)%nat /\
+    nth j cdf 0 < x <= nth (S j) cdf 0 /\
+    nth j freq 0 <= v <= nth (S j) freq 0 /\
+    nth 0 freq 0 <= v <= nth (length freq - 1) freq 0.
+Proof. exact sample_linear_range_lemma. Qed.
+Print Assumptions C18_sample_linear_in_range.
+
+(* ... and is monotone in the random number *)
+Theorem C18_sample_linear_monotone : forall freq cdf x x' v v', length freq = length cdf -> (2 <= length cdf)%nat ->
+  Rsorted freq -> Rsorted cdf ->
+  nth 0 cdf 0 < x -> x <= x' -> x' <= nth (length cdf - 1) cdf 0 ->
+  sample_linear Rops freq cdf x = Some v -> sample_linear Rops freq cdf x' = Some v' -> v <= v'.
+Proof. exact sample_linear_monotone_lemma. Qed.
+Print Assumptions C18_sample_linear_monotone.
+
+(* Planck: log-log interpolation with the 1e-10 floor of the first bin *)
+Theorem C18_sample_planck_in_range : forall cdf logcdf logfreq x, planck_tables cdf logcdf ->
+  length logfreq = length cdf -> (2 <= length cdf)%nat -> Rsorted logfreq ->
+  1 / 10 ^ 10 <= x -> nth 0 cdf 0 < x <= nth (length cdf - 1) cdf 0 ->
+  exists j v, sample_planck Rops cdf logcdf logfreq x = Some v /\ (S j < length cdf)%nat /\
+    nth j cdf 0 < x <= nth (S j) cdf 0 /\
+    Rpower 10 (nth j logfreq 0) * 3288465385000000 <= v <= Rpower 10 (nth (S j) logfreq 0) * 3288465385000000 /\
+    Rpower 10 (nth 0 logfreq 0) * 3288465385000000 <= v <= Rpower 10 (nth (length logfreq - 1) logfreq 0) * 3288465385000000.
+Proof. exact sample_planck_range_lemma. Qed.
+Print Assumptions C18_sample_planck_in_range.
+
+(* H / He Lyman continua: inside the frequency table for every random number, PROVIDED the cell
+   temperature lies inside the temperature table *)
+Theorem C18_sample_lyman_in_range_T_inside_table : forall freq temp cdfs T x, lyman_tables freq temp cdfs ->
+  nth 0 temp 0 <= T <= nth (length temp - 1) temp 0 ->
+  exists v, sample_lyman Rops freq temp cdfs T x = Some v /\ nth 0 freq 0 <= v <= nth (length freq - 1) freq 0.
+Proof. exact sample_lyman_range_lemma. Qed.
+Print Assumptions C18_sample_lyman_in_range_T_inside_table.
+
+(* ... and REFUTED without that proviso (D7): valid tables, 10 K <= T <= 1e9 K, 1e-10 <= x < 1,
+   and the sampled frequency is below the lowest tabulated frequency *)
+Theorem C18_sample_lyman_in_range_refuted : exists freq temp cdfs T x v, lyman_tables freq temp cdfs /\
+  10 <= T <= 1000000000 /\ 1 / 10 ^ 10 <= x < 1 /\
+  sample_lyman Rops freq temp cdfs T x = Some v /\ v < nth 0 freq 0.
+Proof. exact sample_lyman_refuted_lemma. Qed.
+Print Assumptions C18_sample_lyman_in_range_refuted.
+
+(* the order checks that are extracted and run on the real spectrum tables are sound *)
+Theorem C18_order_checkers_sound :
+  (forall l, weakly_increasing Rops l = true -> Rsorted l) /\ (forall l, strictly_increasing Rops l = true -> Rstrict l).
+Proof. exact (conj weakly_increasing_sound strictly_increasing_sound). Qed.
+Print Assumptions C18_order_checkers_sound.
